@@ -34,14 +34,12 @@ def value_ok(evs, v):
 def refpath_hits(scratch):
     from translate import crefpaths as C
     src = C.strip_comments(open(os.path.join(scratch, "traits", "ctraits.c")).read())
-    funcs = C.functions(src)
-    fields = C.read_obj_fields(src)
     hits, seen = [], set()
-    for name in C.FUNCTIONS:
-        try:
-            _, paths, _ = C.analyse(src, funcs, fields, name)
-        except Exception:
-            continue            # unreadable / too large: the translator itself fails closed on it
+    try:
+        results, _unread = C.read_all(src)      # every function definition the reader covers; `unread` ones are skipped
+    except Exception:
+        return hits             # a REQUIRED function is unreadable: the translator itself fails closed on it
+    for (name, _, paths, _) in results:
         for (kind, err, evs) in paths:
             for v in dict.fromkeys(w for (w, _) in evs):
                 if not value_ok(evs, v):
